@@ -94,6 +94,8 @@ type Engine struct {
 	srcCache  map[string][]byte
 	CurProp   string
 	boxed     []types.Type
+	recGhost  map[*ssa.Function]bool
+	reachCache map[*ssa.Function]map[*ssa.Function]bool
 	globCache map[*ssa.Function]map[*ssa.Global]bool
 }
 
